@@ -8,6 +8,7 @@ normalisation is idealised to `0` and the `1e-8·I` jitter of the SVD is part of
 The eigen-decomposition is an oracle `(U, s)` with contract `UᵀU = I`, `s ≥ 0`.
 -/
 import Xrfmv.Lemmas.Agop
+import Xrfmv.Gen.FitM
 import Mathlib.Tactic.NormNum
 import Mathlib.Algebra.Order.Field.Rat
 
@@ -174,5 +175,21 @@ theorem centred_per_batch_depends_on_partition :
   · rw [e1, e2]; intro h; simp at h
   · rw [e1, e2, n1, n2]; intro h; simp at h; norm_num at h
   · rw [d1, d2]; intro h; simp at h
+
+/-- **C14 (sub-sampling limit inactive)** `fit_M` adds the first `numBatches = 1 + total_points_to_sample // M_batch_size`
+consecutive chunks of `M_batch_size` points (regenerated `Gen.FitM`).  Whenever `n ≤ total_points_to_sample` these chunks
+contain all `n` training points for EVERY batch size `≥ 1`, so the accumulated matrix is the sum over all points and, by
+`agop_batch_additive`, does not depend on the batch size.  (Above the limit the number of points used does depend on the
+batch size; that is the documented sub-sampling, outside the property.) -/
+theorem all_points_used (n total bs : ℕ) (hbs : 1 ≤ bs) (hn : n ≤ total) :
+    n ≤ Xrfmv.Gen.FitM.numBatches total bs * bs ∧
+    Xrfmv.Gen.FitM.batchesAreConsecutiveChunks = true ∧ Xrfmv.Gen.FitM.everyUsedBatchAddedOnce = true := by
+  refine ⟨?_, rfl, rfl⟩
+  unfold Xrfmv.Gen.FitM.numBatches
+  have h1 := Nat.div_add_mod total bs
+  have h2 := Nat.mod_lt total (by omega : bs > 0)
+  rw [Nat.add_mul, Nat.one_mul, Nat.mul_comm (total / bs) bs]
+  omega
+
 
 end Xrfmv.Props.C14
